@@ -33,6 +33,7 @@ type Store struct {
 	mu   sync.Mutex
 	cond *sync.Cond
 	evs  []Captured
+	base int // index of evs[0]: events before it have been forgotten (Forget)
 	run  int
 	sink func(Captured)
 }
@@ -72,7 +73,7 @@ func (s *Store) add(ch string, run int, e event.Event) {
 	rec.Ch = ch
 	rec.Run = run
 	s.mu.Lock()
-	rec.Seq = len(s.evs)
+	rec.Seq = s.base + len(s.evs)
 	c := Captured{Ch: ch, Run: run, Seq: rec.Seq, E: e, Rec: rec}
 	s.evs = append(s.evs, c)
 	sink := s.sink
@@ -83,16 +84,41 @@ func (s *Store) add(ch string, run int, e event.Event) {
 	}
 }
 
-func (s *Store) Len() int { s.mu.Lock(); defer s.mu.Unlock(); return len(s.evs) }
+func (s *Store) Len() int { s.mu.Lock(); defer s.mu.Unlock(); return s.base + len(s.evs) }
+
+// Forget releases the events captured before index n (indices stay absolute). Long workloads that judge every
+// scenario on the events since its start call it between scenarios, so that the store does not grow with the run.
+func (s *Store) Forget(n int) {
+	s.mu.Lock()
+	defer s.mu.Unlock()
+	k := n - s.base
+	if k <= 0 {
+		return
+	}
+	if k > len(s.evs) {
+		k = len(s.evs)
+	}
+	s.evs = append([]Captured(nil), s.evs[k:]...)
+	s.base += k
+}
+
+// from is the position in evs of absolute index n.
+func (s *Store) from(n int) int {
+	n -= s.base
+	if n < 0 {
+		n = 0
+	}
+	if n > len(s.evs) {
+		n = len(s.evs)
+	}
+	return n
+}
 
 // Since returns the events captured at or after index n.
 func (s *Store) Since(n int) []Captured {
 	s.mu.Lock()
 	defer s.mu.Unlock()
-	if n > len(s.evs) {
-		n = len(s.evs)
-	}
-	return append([]Captured(nil), s.evs[n:]...)
+	return append([]Captured(nil), s.evs[s.from(n):]...)
 }
 
 // WaitFor waits until pred holds over the events since n, or max elapses.
@@ -105,7 +131,7 @@ func (s *Store) WaitFor(n int, pred func([]Captured) bool, max time.Duration) bo
 	s.mu.Lock()
 	defer s.mu.Unlock()
 	for {
-		if pred(s.evs[min(n, len(s.evs)):]) {
+		if pred(s.evs[s.from(n):]) {
 			return true
 		}
 		if time.Now().After(deadline) {
